@@ -135,6 +135,14 @@ def check_cumulative(ctx, rule='R4'):
     for r in ast.walk(fl.node):
         if isinstance(r, ast.Return) and r.value is not None:
             lens_ret = it2.value_of(r.value)
+    if lens_ret is None:
+        # not on the path of the query any more (the query calls an inner helper directly): decide _lengths on its own,
+        # for unwrapped fractional difference vectors
+        from ..interp import AV
+        from ..model_numpy import XYZ
+        it3 = ctx.entry(fl.qualname, args={'vectors': AV(ty='ndarray', geo=('FDIFF', 'CUM'), axes=('atom', XYZ), dtype='float')})
+        nerr += kind_errors(ctx, rule, it3, under(fl.qualname))
+        lens_ret = it3.result
     ok = lens_ret is not None and lens_ret.geo == ('DIST',)
     if not nerr:
         ctx.ob(rule, fl, 'return value', True if ok else None,
